@@ -145,6 +145,37 @@ def check(case, sub="solve"):
                 ok = np.linalg.norm(np.asarray(state.rep_data.data) - sv.dm(want)) < 1e-8
             if not ok:
                 raise Violation(sub, "backend-state", bname, icls, "backend %s setting %s does not give |G> x |0..0>" % (bname, d2))
+    # the target object edited in place (one CZ = one edge toggled): a new solver on the same object, and the old solver asked
+    # again, must both answer for the target as it is now
+    if case.get("rep", "s") == "s" and n >= 3 and case.get("seed", 0) % 4 == 1 and hasattr(target.rep_data, "apply_cz"):
+        a_ = case.get("seed", 0) % n
+        b_ = (a_ + 1 + (case.get("seed", 0) // n) % (n - 1)) % n
+        mask2 = mask ^ (1 << rg.pairs(n).index((min(a_, b_), max(a_, b_))))
+        if not rg.has_isolated(n, mask2):
+            guarded(sub, icls + ":target_edited", target.rep_data.apply_cz, a_, b_)
+            want_e2 = max(rg.cut_ranks(n, mask2) + [0])
+
+            def verify_now(sv_solver, who):
+                sc, c_ = sv_solver.result
+                d_ = {"ne": c_.n_emitters, "np": n, "nc": c_.n_classical, "ops": circuit_ops(c_)}
+                w_ = np.kron(rg.graph_state(n, mask2), sv.zero_state(c_.n_emitters))
+                for v_ in all_branches(d_, d_["ops"]):
+                    if not sv.same_state(v_, w_):
+                        raise Violation(sub, "wrong-state", "TimeReversedSolver", icls + ":target_edited",
+                                        "%s: after an in-place edit of the target object the circuit does not generate the target as it is now" % who)
+                if not abs(float(sc)) < 1e-9:
+                    raise Violation(sub, "score", "TimeReversedSolver", icls + ":target_edited", "%s: reported score %r" % (who, sc))
+
+            solver2 = guarded(sub, icls + ":target_edited", TimeReversedSolver, target=target, metric=Infidelity(target=target), compiler=comp)
+            if solver2.n_emitter != want_e2:
+                raise Violation(sub, "emitter-count", "TimeReversedSolver", icls + ":target_edited",
+                                "new solver on the edited target object allocates %s emitters, maximum cut rank %s" % (solver2.n_emitter, want_e2))
+            guarded(sub, icls + ":target_edited", solver2.solve)
+            verify_now(solver2, "new solver")
+            if want_e2 <= solver.n_emitter:
+                guarded(sub, icls + ":target_edited", solver.solve)
+                verify_now(solver, "old solver asked again")
+            cl.append("target_edited_in_place")
     # classes
     mcr_then_emit = False
     seen = set()
